@@ -1694,9 +1694,9 @@ class Message(ABC):
                     )
                 elif sub_cls == timedelta:
                     value = (
-                        [timedelta(seconds=float(item[:-1])) for item in value]
+                        [_Duration.delta_from_json(item) for item in value]
                         if isinstance(value, list)
-                        else timedelta(seconds=float(value[:-1]))
+                        else _Duration.delta_from_json(value)
                     )
                 elif meta.wraps:
                     value = (
@@ -1717,9 +1717,7 @@ class Message(ABC):
                 if sub_cls == datetime:
                     value = {k: isoparse(v) for k, v in value.items()}
                 elif sub_cls == timedelta:
-                    value = {
-                        k: timedelta(seconds=float(v[:-1])) for k, v in value.items()
-                    }
+                    value = {k: _Duration.delta_from_json(v) for k, v in value.items()}
                 elif value_type == TYPE_MESSAGE:
                     value = {k: sub_cls.from_dict(v) for k, v in value.items()}
                 elif value_type == TYPE_ENUM:
@@ -2141,6 +2139,15 @@ class _Duration(Duration):
 
     def to_timedelta(self) -> timedelta:
         return timedelta(seconds=self.seconds, microseconds=self.nanos / 1e3)
+
+    @staticmethod
+    def delta_from_json(value: str) -> timedelta:
+        """Parse the JSON form (``"-1.500s"``) without rounding through float."""
+        text = value[:-1]
+        sign = -1 if text.startswith("-") else 1
+        seconds, _, fraction = text.lstrip("+-").partition(".")
+        nanos = int(fraction[:9].ljust(9, "0")) if fraction else 0
+        return sign * timedelta(seconds=int(seconds or 0), microseconds=nanos / 1e3)
 
     @staticmethod
     def delta_to_json(delta: timedelta) -> str:
